@@ -20,6 +20,9 @@ use std::{
     time::Duration,
 };
 
+/// The crate's wire codec as plain data (decode only).
+pub use crate::dns_parser::verif_facade as codec;
+
 /// What the daemon would otherwise ask the operating system.
 pub trait Env: Send + Sync + 'static {
     /// Called once on the daemon thread, before it creates any state.
